@@ -96,7 +96,14 @@ Faults == <<
   [t |-> Mark("function w(s) { n = s.length(); return n } BEGIN { q = 'a,b'; print ", Chars("q.split(w('a'))"), " }"), class |-> "runtime", exact |-> FALSE],
   [t |-> Mark("function w(s) { return num(s) } BEGIN { print ", Chars("printf('%s %s', w('1'))"), " }"), class |-> "runtime", exact |-> FALSE],
   [t |-> Mark("function w(s) { return s.upper().lower() } BEGIN { q = [1]; print ", Chars("q.push(w('a'), w('b'))"), " }"), class |-> "runtime", exact |-> FALSE],
-  [t |-> Mark("function w(s) { return s } BEGIN { print w(w(", Chars("nosuch(w(1))"), ")) }"), class |-> "runtime", exact |-> FALSE]
+  [t |-> Mark("function w(s) { return s } BEGIN { print w(w(", Chars("nosuch(w(1))"), ")) }"), class |-> "runtime", exact |-> FALSE],
+  \* an argument that cannot be passed; a malformed number; a line with tabs
+  [t |-> Mark("function w(s) { return 1 } BEGIN { q = 'a'; x = w(", Chars("q.length"), ") }"), class |-> "runtime", exact |-> FALSE],
+  [t |-> Mark("function w(s, t) { return 1 } BEGIN { x = w('s', ", Chars("printf"), ") }"), class |-> "runtime", exact |-> FALSE],
+  [t |-> Mark("BEGIN { x = ", Chars("10.0.0.17"), " ; print x }"), class |-> "runtime", exact |-> FALSE],
+  [t |-> Mark("BEGIN { x = [1, ", Chars("1..5"), ", 2] }"), class |-> "runtime", exact |-> FALSE],
+  [t |-> <<"09">> \o Chars("BEGIN {") \o <<"09">> \o Chars("y = 5;") \o <<"09", "LO">> \o Chars("y(1)") \o <<"HI">> \o Chars(" }"), class |-> "runtime", exact |-> FALSE],
+  [t |-> <<"09", "09">> \o Chars("BEGIN { x = ") \o <<"LO">> \o Chars("@") \o <<"HI", "09">> \o Chars("}"), class |-> "syntax", exact |-> TRUE]
 >>
 
 VARIABLES pre, fi, post, lastNL, done
